@@ -12,15 +12,13 @@ _SKIP = [x.split('/')[-1] for x in _TUS]
 def _h(hid, defs, cap=400):
     return {'id': hid, 'property': 'C10', 'src': 'c10_traits.cxx', 'entry': 'harness_c10_traits', 'tus': _TUS, 'cut': _CUT, 'skip_ctors': _SKIP,
             'models': ['list.c'], 'desc': 'x', 'domain': 'x', 'oracle': 'x',
-            'bounds': {'quick': {'defs': defs, 'unwind': 7, 'unwindset': {'harness_c10_traits.0': 20, 'harness_c10_traits.1': 20, 'll_memcpy.0': 48, 'll_memmove.0': 48}, 'cap': cap}}}
+            'bounds': {'quick': {'defs': defs, 'unwind': 7, 'unwindset': {'harness_c10_traits.0': 20, 'harness_c10_traits.1': 20, '_ZL11check_classii.0': 8, '_ZL11check_classii.1': 8, '_ZL11check_classii.2': 8, 'll_memcpy.0': 48, 'll_memmove.0': 48}, 'cap': cap}}}
 
 
 HARNESSES = [
- _h('c10_t1', {'MEMS': 1, 'PRESENCE': '0x01', 'DTORS': 0}),
- _h('c10_t2', {'MEMS': 1, 'PRESENCE': '0x03', 'DTORS': 0}),
- _h('c10_t3', {'MEMS': 1, 'PRESENCE': '0x8000', 'DTORS': 0}),
- _h('c10_t4', {'MEMS': 6, 'PRESENCE': '0x02', 'DTORS': 0}),
- _h('c10_t5', {'MEMS': 1, 'PRESENCE': '0x10', 'DTORS': 1}),
+ dict(_h('c10_p5', {'C10_PROBE': 5}, cap=100), entry='harness_c10_probe'),
+ dict(_h('c10_p6', {'C10_PROBE': 6}, cap=100), entry='harness_c10_probe'),
+ dict(_h('c10_p7', {'C10_PROBE': 7}, cap=100), entry='harness_c10_probe'),
 ]
 
 PROPERTY_INFO = {'C10': {'level': 'model_checking', 'explanation': 'x', 'outside': 'x', 'assumptions': []}}
